@@ -146,6 +146,12 @@ func opCase(base registry.Reference, op string, plain bool, in, want string) {
 	run.Count("op_" + op)
 	if len(reqs) > 0 {
 		run.Nontrivial("O:" + op + p + base.String() + "|" + in)
+		run.Count("op_sent")
+	} else {
+		run.Count("op_refused")
+	}
+	if want != "" {
+		run.Count("op_ground_truth")
 	}
 	rep := map[string]any{"op": "O", "kind": op, "plain": plain, "registry": base.Registry, "repository": base.Repository, "input": in, "want": want, "variant": strconv.Itoa(variant)}
 	// a reference string naming another path must be refused before anything is sent
